@@ -153,11 +153,20 @@ func init() {
 
 func run(t *T) {
 	n := t.Budget(400)
-	for i := 0; i < n; i++ {
+	directed := DirectedSpecs()
+	for i := 0; i < n+len(directed); i++ {
 		r := t.R.Fork(uint64(i))
-		spec := DrawSpec(r, 6)
+		var spec Spec
+		if i < len(directed) {
+			spec = directed[i]
+		} else {
+			spec = DrawSpec(r, 6)
+		}
 		base, err := spec.Files(nil)
 		if err != nil {
+			if i < len(directed) {
+				continue // the tweak does not suit this class (prescribed description, …)
+			}
 			t.Fail("C08/generator", "generator failed", spec, err.Error(), "a list of valid files")
 			continue
 		}
